@@ -39,6 +39,12 @@ var solvers = []solverDef{
 	{"cvc5-1.0", func(f string, to time.Duration) []string {
 		return []string{"cvc5", fmt.Sprintf("--tlimit=%d", to.Milliseconds()), f}
 	}},
+	// z3-new without its automatic configuration (which picks tactics by a static look at the
+	// query): on the quantified array goals of the pairwise loops it answers in a fraction of
+	// the time, or at all, where the default configuration wanders
+	{"z3-new-5.1.0-noauto", func(f string, to time.Duration) []string {
+		return []string{"z3-new", fmt.Sprintf("-T:%d", int(to.Seconds()+0.999)), "smt.auto_config=false", f}
+	}},
 }
 
 func (o *Obligation) smtText() string {
@@ -140,6 +146,13 @@ func solve(o *Obligation, cfg *SolverCfg) {
 			res, out, solver = res2, out2, solvers[1].name
 		}
 	}
+	if o.Kind != "cover" && res != "sat" && res != "unsat" && len(solvers) > 3 {
+		// stage 1b: the same solver without automatic configuration, short
+		res2, out2 := runOne(context.Background(), solvers[3], file, capTo(4*time.Second, deadline))
+		if res2 == "sat" || res2 == "unsat" {
+			res, out, solver = res2, out2, solvers[3].name
+		}
+	}
 	if o.Kind != "cover" && res != "sat" && res != "unsat" {
 		// stage 2: portfolio (see portfolio): the full query on all three solvers, the query with
 		// redundant instances switched off, and relevance-sliced queries, side by side
@@ -218,7 +231,7 @@ func portfolio(text, file string, to time.Duration, wantUnsat bool) (res, out, l
 		sat            bool
 		solvers        []int
 	}
-	vs := []variant{{file, text, "", true, []int{0, 1, 2}}}
+	vs := []variant{{file, text, "", true, []int{0, 1, 2, 3}}}
 	base := strings.TrimSuffix(file, ".smt2")
 	if wantUnsat {
 		if strings.Contains(text, "(hint") {
@@ -231,6 +244,13 @@ func portfolio(text, file string, to time.Duration, wantUnsat bool) (res, out, l
 				vs = append(vs, variant{base + ".slice1.smt2", s1, "slice(1):", false, []int{0, 2}})
 				if s2 := sliceQuery(text, 2); s2 != "" && len(s2) != len(s1) {
 					vs = append(vs, variant{base + ".slice2.smt2", s2, "slice(2):", false, []int{0}})
+				}
+			}
+			// rarest-symbol (SInE) slices to a fixpoint, a narrow and a wide one
+			if s3 := sliceQueryTol(text, 3, 1.2); s3 != "" {
+				vs = append(vs, variant{base + ".sine1.smt2", s3, "sine(3,1.2):", false, []int{0, 3}})
+				if s4 := sliceQueryTol(text, 8, 2); s4 != "" && len(s4) != len(s3) {
+					vs = append(vs, variant{base + ".sine2.smt2", s4, "sine(8,2):", false, []int{3}})
 				}
 			}
 		}
